@@ -5,5 +5,7 @@
 cd /verif
 NAMES="$@"; [ -z "$NAMES" ] && NAMES=$(ls seeded/benign)
 for n in $NAMES; do
-    echo "$n: $(tools/altcheck.sh /verif/seeded/benign/$n/patch.diff C03 C07 C08 C12 C13 C14 C17 C18 C19 | tr '\n' ' ')"
+    # a change made against an older tree may have been re-created for the current one
+    P=/verif/seeded/benign/$n/patch.diff; [ -f /verif/seeded/benign/$n/patch_rebased.diff ] && P=/verif/seeded/benign/$n/patch_rebased.diff
+    echo "$n: $(tools/altcheck.sh $P C03 C07 C08 C12 C13 C14 C17 C18 C19 | tr '\n' ' ')"
 done
